@@ -25,6 +25,9 @@ mutual
     | .some v => v.wt
     | .list t xs => Val.wtList t xs
     | .map _ k v keys vals _ => keys.length == vals.length && nodupB keys && keys.all (fun a => a.ty == k) && Val.wtList v vals
+    | .left v _ => v.wt
+    | .right _ v => v.wt
+    | .set t xs => nodupB xs && xs.all (fun a => a.ty == t)
   def Val.wtList (t : Ty) : List Val → Bool
     | [] => true
     | x :: xs => x.typeOf == t && x.wt && Val.wtList t xs
@@ -44,8 +47,6 @@ def loopOk (r : TyRes) (Γ : List Ty) : Bool :=
   match r with
   | none => true
   | some Δ => Δ == Γ
-
-def tyMapArgs (k v : Ty) (key val mk mv : Ty) : Bool := key == k && val == .option v && mk == k && mv == v
 
 /-- the instructions that pop a fixed number of items and push their results -/
 def tySimple (c : Cfg) (i : Instr) (Γ : List Ty) : Option (List Ty) :=
@@ -117,6 +118,22 @@ def tySimple (c : Cfg) (i : Instr) (Γ : List Ty) : Option (List Ty) :=
     match Γ with
     | key :: val :: .map k v :: Δ => if key == k && val == .option v then some (.map k v :: Δ) else none
     | key :: val :: .bigMap k v :: Δ => if key == k && val == .option v then some (.bigMap k v :: Δ) else none
+    | key :: .bool :: .set t :: Δ => if key == t then some (.set t :: Δ) else none
+    | _ => none
+  | .left t =>
+    match Γ with
+    | a :: Δ => some (.or a t :: Δ)
+    | _ => none
+  | .right t =>
+    match Γ with
+    | a :: Δ => some (.or t a :: Δ)
+    | _ => none
+  | .emptySet t => some (.set t :: Γ)
+  | .mem =>
+    match Γ with
+    | key :: .set t :: Δ => if key == t then some (.bool :: Δ) else none
+    | key :: .map k _ :: Δ => if key == k then some (.bool :: Δ) else none
+    | key :: .bigMap k _ :: Δ => if key == k then some (.bool :: Δ) else none
     | _ => none
   | _ => none
 
@@ -165,9 +182,20 @@ mutual
         | some r1, some r2 => joinRes r1 r2
         | _, _ => none
       | _ => none
+    | .ifLeft bt bf, Γ =>
+      match Γ with
+      | .or a b :: Δ =>
+        match tySeq c bt (a :: Δ), tySeq c bf (b :: Δ) with
+        | some r1, some r2 => joinRes r1 r2
+        | _, _ => none
+      | _ => none
     | .iter body, Γ =>
       match Γ with
       | .list a :: Δ =>
+        match tySeq c body (a :: Δ) with
+        | some r => if loopOk r Δ then some (some Δ) else none
+        | none => none
+      | .set a :: Δ =>
         match tySeq c body (a :: Δ) with
         | some r => if loopOk r Δ then some (some Δ) else none
         | none => none
